@@ -158,6 +158,8 @@ class Func(Method):
             head = "(bind (%s %s) (fun %s => " % (LISTCAST[caster][0], raw, x)
             tail = "))"
             binder = raw
+        elif tit == "timinglist":
+            et, head, tail, binder = "timingu", "", "", x
         elif tit.startswith("list:") or tit.startswith("set:"):
             et = tit.split(":", 1)[1]
             head, tail, binder = "", "", x
